@@ -4,7 +4,6 @@ import (
 	"context"
 	"encoding/json"
 	"fmt"
-	"math/big"
 	"math/rand"
 	"os"
 	"sort"
@@ -556,5 +555,3 @@ func c35run(out string, casesPath string) {
 	b, _ := json.MarshalIndent(meta, "", " ")
 	kit.Must(os.WriteFile(out+".meta.json", b, 0o644))
 }
-
-var _ = big.NewInt
